@@ -198,6 +198,49 @@ def closures_doc(funcs):
     return doc
 
 
+def function_renames(funcs):
+    """{current full name: baseline full name} for functions under contract that were RENAMED since the baseline: the
+    baseline name is gone, and exactly one function of the same package that the baseline tree did not have carries
+    the same signature (receiver type included) and a very similar body.  The contract keeps addressing it by the name
+    it was written for; every reference in the program is renamed consistently."""
+    base = load()
+    allf = set(base.get('#allfuncs') or [])
+    fps = base.get('#fingerprints') or {}
+    if not allf or not fps:
+        return {}
+    new_funcs = [n for n, f in funcs.items() if n not in allf and not f.get('parent') and not f.get('synthetic')]
+    ren = {}
+    for old_name, fp in fps.items():
+        if old_name in funcs or '$' in old_name:
+            continue
+        pkg = old_name.rsplit('.', 1)[0].lstrip('(*')
+        recv = old_name[:old_name.rfind(').') + 1] if old_name.startswith('(') else ''
+        cands = []
+        for n in new_funcs:
+            f = funcs[n]
+            nrecv = n[:n.rfind(').') + 1] if n.startswith('(') else ''
+            npkg = n.rsplit('.', 1)[0].lstrip('(*')
+            if nrecv != recv or (not recv and npkg != pkg):
+                continue
+            cf = closure_fp(f)
+            if cf['sig'] != fp['sig']:
+                continue
+            d = _dice(fp['ops'], cf['ops'])
+            if d >= 0.8:
+                cands.append((d, n))
+        if len(cands) == 1 or (len(cands) > 1 and sorted(cands)[-1][0] - sorted(cands)[-2][0] > 0.1):
+            n = sorted(cands)[-1][1]
+            if n not in ren:
+                ren[n] = old_name
+    # literals of a renamed function follow it
+    out = dict(ren)
+    for n, o in ren.items():
+        for m in funcs:
+            if m.startswith(n + '$'):
+                out[m] = o + m[len(n):]
+    return out
+
+
 def closure_renames(funcs):
     """{current full name: name it had in the baseline tree} for the function literals of every function whose list of
     literals changed shape since the baseline (one added before the others, one removed ...).  go/ssa numbers literals
@@ -298,6 +341,8 @@ def main():
             if eng.prog.short(name) == (full[0], short) or (eng.prog.short(name)[0] == full[0] and eng.prog.short(name)[1].startswith(short + '$')):
                 doc[name] = shape(fn)
     doc['#closures'] = closures_doc(eng.prog.funcs)
+    doc['#allfuncs'] = sorted(eng.prog.funcs)
+    doc['#fingerprints'] = {name: closure_fp(eng.prog.funcs[name]) for name in doc if not name.startswith('#') and name in eng.prog.funcs}
     json.dump(doc, open(PATH, 'w'), indent=0, sort_keys=True)
     print('%s: %d functions' % (PATH, len(doc)))
 
